@@ -215,6 +215,13 @@ class DataModel:
             return c.methods[name]
         return MethodSpec(name, TNum("double"), nargs, declared=False)
 
+    def smart_depth(self, cls) -> int:
+        "how many times an object of this class can be dereferenced itself (max declared deref_count)"
+        c = self.classes.get(cls)
+        if c is None:
+            return 0
+        return max([m.deref_count for m in c.methods.values()] + [0])
+
     def declare_collection(self, spec: CollSpec):
         self.colls[spec.name] = spec
         return self
@@ -313,14 +320,15 @@ class Num:
 
 class ObjV:
     "Object (or pointer to object): class, pointer depth, object id, null predicate."
-    __slots__ = ("cls", "p", "oid", "null", "ref")
+    __slots__ = ("cls", "p", "oid", "null", "ref", "sd")
 
-    def __init__(self, cls, p, oid, null=None, ref=False):
+    def __init__(self, cls, p, oid, null=None, ref=False, sd=0):
         self.cls = cls
         self.p = p
         self.oid = oid
         self.null = null if null is not None else z3.BoolVal(False)
         self.ref = ref
+        self.sd = sd      # "smart" dereferences applied so far (metadata deref_count semantics)
 
     def __repr__(self):
         return f"Obj({self.cls}{'*'*self.p},{self.oid})"
